@@ -5,7 +5,8 @@
    the same schemas.  Structure size and member offsets are C-compiler facts: the tie checks them on the
    real generated code (sizeof_ok / off_ok of harness/GENFORMAT.md); they are not modelled in Coq. *)
 From Coq Require Import ZArith List Bool Permutation.
-From PBC Require Import Base.CInt Gen.LeafC GenModel.Ranges GenModel.Gen Proofs.GenStruct Proofs.LookupGen.
+From PBC Require Import Base.CInt Gen.LeafC Impl.Desc Impl.Canon GenModel.Ranges GenModel.Gen GenModel.ToRuntime
+     Proofs.GenStruct Proofs.LookupGen Proofs.GenEnvOk.
 Import ListNotations.
 Local Open Scope Z_scope.
 
@@ -31,3 +32,19 @@ Theorem C13_enum_descriptor_values : forall f e,
   (ge_value_ranges g, ge_n_value_ranges g) = mk_ranges nums.
 Proof. exact gen_enum_values. Qed.
 Print Assumptions C13_enum_descriptor_values.
+
+(* What the generator emits is what the runtime theorems assume: read through GenModel/ToRuntime.v (names and
+   C symbols forgotten, message descriptors numbered by position), the descriptors of EVERY protoc run over
+   schemas with protoc's own guarantees (distinct field numbers in [1, 2^29), oneof members optional, defaults
+   of the field's type, proto3 without required fields and explicit defaults, referenced message types present;
+   no groups; not the two listed findings) satisfy Canon.env_ok -- the hypothesis of the round-trip theorem C01:
+   fields strictly ascending, label / quantifier / flag combinations the runtime relies on, well-typed
+   defaults, valid sub-descriptor indices, range tables as WriteIntRanges emits them, implicit-presence
+   fields starting out zero. *)
+Theorem C13_generated_descriptors_satisfy_runtime_assumptions : forall tg fs,
+  let syms := map gm_sym (go_msgs (gen_all tg fs)) in
+  (forall f, In f fs -> (pfl_syntax f = 2 \/ pfl_syntax f = 3) /\
+                        forall m, In m (pfl_messages f) -> msg_hyp fs f syms m) ->
+  env_ok (rt_env (gen_all tg fs)) = true.
+Proof. exact gen_env_ok. Qed.
+Print Assumptions C13_generated_descriptors_satisfy_runtime_assumptions.
